@@ -278,7 +278,7 @@ def parse_answer(ans):
     """`ok k=v k=v` -> dict (values left as strings); None when not ok."""
     if not ans.startswith('ok'):
         return None
-    return dict(t.split('=', 1) for t in ans.split()[1:])
+    return dict((t.split('=', 1) if '=' in t else (t, '')) for t in ans.split()[1:])
 
 
 def odd_bits(fr):
